@@ -206,6 +206,12 @@ def make_type_resolver(key, as_object):
         if rt is not None:
             rt.type_calls += 1
             rt.loop.ev("type_resolve", rt.rid, key, abstract_type.name)
+        tfaults = getattr(rt.plan, "type_faults", None) if (rt is not None and rt.plan is not None) else None
+        if tfaults:
+            p0 = tuple(info.path.as_list())
+            if p0 in tfaults:
+                tf = tfaults[p0]
+                raise UserError(tf[0], extensions=dict(tf[1]))
         if rt is not None and rt.type_override:
             p = tuple(info.path.as_list())
             if p in rt.type_override:
